@@ -33,7 +33,7 @@ HAND = [
     # symmetric molecules: every tie-break of the writer / ring search is exercised
     'c1ccccc1', 'C1CCCCC1', 'C12C3C4C1C5C2C3C45', 'C1C2CC3CC1CC(C2)C3', 'C1CC2CCC1CC2', 'c1ccc2ccccc2c1', 'C1CC11CC1',
     'c1cc2ccc3cccc4ccc(c1)c2c34', 'C1=CC=CC=C1', 'CC(C)(C)C(C)(C)C', 'C1CC1C1CCCCC1', 'C1CC1C1CC1', 'C1CCC1C1CCC1',
-    'OC1CCC(O)CC1', 'C(C)(C)(C)C', 'CCCCCCCC', 'C1CC2CC1CC2', 'C12CC1C2', 'C1CC1CC',
+    'OC1CCC(O)CC1', 'C(C)(C)(C)C', 'CCCCCCCC', 'C1CC2CC1CC2', 'C12CC1C2', 'C1CC1CC', 'C123CC(C1)(C2)C3', 'C12CC(C1)C2',
     # components, charges, radicals, isotopes, metals
     '[Na+].[Cl-]', '[Na+].[Na+].[O-]S(=O)(=O)[O-]', 'CC(=O)[O-].[K+]', 'O.O.O', 'C[N+](C)(C)C.[Br-]', '[CH3]', 'C[CH2]', '[13CH4]',
     '[2H]O[2H]', 'C[Fe](C)(C)(C)(C)C', '[Cu+2].[O-]C(=O)C.[O-]C(=O)C', 'Cl[Pt](Cl)(N)N', '[O-][N+](=O)c1ccccc1', 'C[S+](C)[O-]',
@@ -1055,7 +1055,7 @@ def differential(ck, spec, results, label=''):
 
 EXTRA = '''From Model Require Import Graph PyHash Determinism.
 From Proofs Require Import DeterminismRings.
-From Model Require Morgan Fingerprint.
+From Model Require Morgan Fingerprint Rings.
 Import ListNotations.
 Open Scope list_scope.
 Open Scope Z_scope.
@@ -1082,6 +1082,26 @@ Definition fr_ok (g : mol) (ids : list (Z * Z)) (enum : list (list Z)) (expect :
 (* n, m = common in _connected_rings: the model of the merge expression equals the real one for both enumerations *)
 Definition mr_ok (c r : list Z) (n m : Z) (e1 e2 : list Z) : bool :=
   pyres_eqb (list_eqb Z.eqb) (merged_ring c r n m) (Ok e1) && pyres_eqb (list_eqb Z.eqb) (merged_ring c r m n) (Ok e2) && list_eqb Z.eqb e1 e2.
+(* the same with the intermediate states: the guard `m in ck[n] and m in rk[n]` through the model of _ring_adjacency (both unpack
+   orders: it is symmetric), the two _ring_scissors spellings, and the boolean form of the hypothesis of C19_merged_ring_sym *)
+Definition adj_has (ring : list Z) (n m : Z) : pyres bool :=
+  match Rings.ring_adjacency ring with
+  | Ok adj => match zget adj n with Some l => Ok (zmem m l) | None => Err KeyError end
+  | Err e => Err e
+  end.
+Definition guard (c r : list Z) (n m : Z) : pyres bool :=
+  match adj_has c n m with Ok true => adj_has r n m | other => other end.
+Fixpoint next_to (ring : list Z) (a b : Z) : bool :=
+  match ring with x :: ((y :: _) as t) => ((x =? a) && (y =? b)) || next_to t a b | _ => false end.
+Definition cyc_adj_b (ring : list Z) (a b : Z) : bool :=
+  next_to ring a b || next_to ring b a || ((hd 0 ring =? a) && (last ring 0 =? b)) || ((hd 0 ring =? b) && (last ring 0 =? a)).
+Definition zres_eqb := pyres_eqb (list_eqb Z.eqb).
+Definition mr_steps_ok (c r : list Z) (n m : Z) (g1 g2 : bool) (s1 s2 s3 s4 e1 e2 : list Z) : bool :=
+  pyres_eqb Bool.eqb (guard c r n m) (Ok g1) && pyres_eqb Bool.eqb (guard c r m n) (Ok g2) && Bool.eqb g1 g2 &&
+  Bool.eqb g1 (cyc_adj_b c n m && cyc_adj_b r n m) &&
+  zres_eqb (Rings.ring_scissors c n m) (Ok s1) && zres_eqb (Rings.ring_scissors r m n) (Ok s2) &&
+  zres_eqb (Rings.ring_scissors c m n) (Ok s3) && zres_eqb (Rings.ring_scissors r n m) (Ok s4) &&
+  zres_eqb (merged_ring c r n m) (Ok e1) && zres_eqb (merged_ring c r m n) (Ok e2) && (negb g1 || list_eqb Z.eqb e1 e2).
 (* weight groups of _smiles: the table computed over the enumeration and over its reverse give the observed counts *)
 Definition gs_ok (ws : list (Z * Z)) (enum : list Z) (expect : list (Z * Z)) : bool :=
   let w := fun n => match zget ws n with Some v => v | None => 0 end in
@@ -1194,12 +1214,57 @@ def memo_cases(ck, rng):
     return cases, meta
 
 
+def ring_pair_cases(ck, rng):
+    """exhaustive small space for the two-element unpack: EVERY spelling (rotation x reflection) of a ring of a atoms and of a ring of b
+    atoms that share exactly one bond, atoms relabelled by a random permutation; the real guard (through _ring_adjacency), the four
+    _ring_scissors spellings and the merged ring for both unpack orders against the model; plus pairs that share two NON-adjacent
+    atoms (guard false)"""
+    from chython.algorithms.rings import _canonic_ring, _ring_scissors, _ring_adjacency
+    sizes = (3, 4, 5) if ck.tier == 'quick' else (3, 4, 5, 6, 7)
+    relabelings = 1 if ck.tier == 'quick' else 3
+
+    def spellings(cyc):
+        out = []
+        for seq in (cyc, cyc[::-1]):
+            for i in range(len(seq)):
+                out.append(tuple(seq[i:] + seq[:i]))
+        return out
+    cases, meta = [], []
+    for a in sizes:
+        for b in sizes:
+            for rep in range(relabelings):
+                labels = list(range(1, a + b))
+                rng.shuffle(labels)
+                lab = lambda x: labels[x - 1]
+                cyc_c = [lab(x) for x in range(1, a + 1)]                        # 1-2-...-a
+                cyc_r = [lab(1), lab(2)] + [lab(x) for x in range(a + 1, a + b - 1)][::-1]   # shares the bond 1-2
+                variants = [(cyc_c, cyc_r, lab(1), lab(2))]
+                if a >= 4 and b >= 4:      # two common atoms that are not neighbours in c: the guard must say no
+                    cyc_r2 = [lab(1)] + [lab(x) for x in range(a + 1, a + 1 + (b - 2) // 2)] + [lab(3)] + [lab(x) for x in range(a + 1 + (b - 2) // 2, a + b - 1)]
+                    variants.append((cyc_c, cyc_r2, lab(1), lab(3)))
+                for cc, rr, n, k in variants:
+                    for c in spellings(cc):
+                        for r in spellings(rr):
+                            g1 = k in _ring_adjacency(c)[n] and k in _ring_adjacency(r)[n]
+                            g2 = n in _ring_adjacency(c)[k] and n in _ring_adjacency(r)[k]
+                            s1, s2 = _ring_scissors(c, n, k), _ring_scissors(r, k, n)
+                            s3, s4 = _ring_scissors(c, k, n), _ring_scissors(r, n, k)
+                            e1 = _canonic_ring((*s1, *s2[1:-1]))
+                            e2 = _canonic_ring((*s3, *s4[1:-1]))
+                            zl = lambda xs: lst(list(xs), zraw)
+                            cases.append(f'mr_steps_ok {zl(c)} {zl(r)} {zraw(n)} {zraw(k)} {cb(g1)} {cb(g2)} {zl(s1)} {zl(s2)} {zl(s3)} {zl(s4)} {zl(e1)} {zl(e2)}')
+                            meta.append(('ring pair', c, r, n, k, g1))
+                            ck.case(('ring pair', c, r, n, k), nontrivial=g1)
+                            ck.count('ring pair spellings: common bond' if g1 else 'ring pair spellings: two common atoms that are not neighbours')
+    return cases, meta
+
+
 def memo_keep_cases(ck, rng):
     """histories with the REAL partial flushes: in-place operations that end with flush_cache(keep_sssr / keep_components) according to
     the regenerated call table (Gen.CacheKeys.partial_flush_calls).  In the model the operation is `KMutateKeep (to the new state)
     keep`, where keep = the observed keys of the families the operation's flags keep: the model then answers the kept keys from the
     OLD cache, the real object must answer the same and both must equal the uncached value of the new state (which also tests the
-    side condition of C19_cache_transparent_keep on real data).  An operation that reports no change is no operation in the model."""
+    side condition of C19_cache_transparent_keep on real data)."""
     from chython import smiles
     import gen_cachekeys
     table = gen_cachekeys.extract(common.REPO)
@@ -1208,6 +1273,8 @@ def memo_keep_cases(ck, rng):
            'keep_components': [props.index('connected_components_count')]}
     flags = {}
     for rel, qual, kw in table['partial']:
+        if 'keep_molecule_cache' in kw or kw == '**kwargs':          # reaction-level flushes
+            continue
         meth = qual.split('.')[-1]
         f = flags.setdefault(meth, {'keep_sssr': True, 'keep_components': True, 'n': 0})
         f['n'] += 1
@@ -1231,7 +1298,7 @@ def memo_keep_cases(ck, rng):
         for h in range(2 if ck.tier == 'quick' else 10):
             m = smiles(smi)
             states = [[value(m.copy(), k) for k in props]]
-            ops, observed = [], []
+            ops, observed, nochange = [], [], []
             for _ in range(rng.randint(5, 9)):
                 r = rng.random()
                 if r < 0.55:
@@ -1252,7 +1319,9 @@ def memo_keep_cases(ck, rng):
                         res = getattr(m, mth)()
                     except Exception:
                         break          # valence errors etc.: the history ends here
-                    if mth == 'clean_stereo' or res:
+                    # the return value is not a reliable `changed` flag (standardize_charges / neutralize aromatise the molecule first and
+                    # still return False): every call is a transition to the state a fresh copy shows afterwards, possibly an equal one
+                    if True:
                         keep = []
                         fl = flags.get(mth)
                         if fl:
@@ -1264,14 +1333,15 @@ def memo_keep_cases(ck, rng):
                         except Exception:
                             break
                         ops.append(f'KMutateKeep (fun _ => {len(states) - 1}%nat) [{"; ".join(str(i) + "%nat" for i in keep)}]')
-                        ck.count('partial-flush histories: operations that changed the molecule')
+                        ck.count('partial-flush histories: in-place operations' + ('' if res else ' that returned a false value'))
                     else:
+                        nochange.append((len(ops), mth))
                         ck.count('partial-flush histories: operations that reported no change')
             if not observed:
                 continue
             tab = lst([lst(row, zraw) for row in states])
             cases.append(f'memo_keep_ok {tab} [{"; ".join(ops)}] {lst(observed, zraw)}')
-            meta.append(('memo-keep', smi, ops, observed))
+            meta.append(('memo-keep', smi, ops + [f'(* operations that reported no change, at position: {nochange} *)'], observed))
             ck.case(('memo-keep', smi, h, tuple(ops)), nontrivial=any(o.startswith('KMutateKeep') for o in ops))
             ck.count('partial-flush histories')
     return cases, meta
@@ -1355,6 +1425,14 @@ def correspondence(ck, spec, results):
     mc, mm = memo_cases(ck, rng)
     ok1, failing1, log1 = coqcases.run_cases('c19', 'PyBase', cases, extra=EXTRA, shard=60)
     ok2, failing2, log2 = coqcases.run_cases('c19m', 'Determinism', mc, extra='Import ListNotations.\nOpen Scope list_scope.\nOpen Scope Z_scope.' + MEMO_EXTRA, shard=400)
+    rc, rm = ring_pair_cases(ck, rng)
+    ok4, failing4, log4 = coqcases.run_cases('c19r', 'PyBase', rc, extra=EXTRA, shard=300)
+    good4 = ok4 and not failing4
+    ck.oblige(f'correspondence (intermediate states, exhaustive over all spellings of two small fused rings): guard through _ring_adjacency for both unpack '
+              f'orders, the four _ring_scissors spellings, the merged ring == model; the guard is symmetric and equals the hypothesis of C19_merged_ring_sym '
+              f'({len(rc)} cases)', good4, 'correspondence', log4 or repr([rm[i] for i in failing4[:4]]))
+    if not good4:
+        ck.unchecked('correspondence _connected_rings merge step (guard / scissors / merged ring) vs chython/algorithms/rings.py', log4[-1500:], [repr(rm[i]) for i in failing4[:20]])
     kc, km = memo_keep_cases(ck, rng)
     ok3, failing3, log3 = coqcases.run_cases('c19k', 'Determinism', kc, extra='Import ListNotations.\nOpen Scope list_scope.\nOpen Scope Z_scope.' + MEMO_KEEP_EXTRA, shard=400)
     good3 = ok3 and not failing3
@@ -1368,7 +1446,7 @@ def correspondence(ck, spec, results):
                               {'smiles': smi, 'history': ops_}, observed_, 'values of never-cached copies / kept values of the state before', 'uncached evaluation on a fresh copy')
         if not failing3:
             ck.unchecked('correspondence partial-flush memo model', log3[-1500:])
-    ck.extra['correspondence_cases'] = len(cases) + len(mc) + len(kc)
+    ck.extra['correspondence_cases'] = len(cases) + len(mc) + len(kc) + len(rc)
     good1 = ok1 and not failing1
     good2 = ok2 and not failing2
     ck.oblige(f'correspondence: atoms_order / linear_hash_set / morgan_hash_set / _fragments dict / ring-size masks / weight groups / start atom of every worker '
@@ -1399,7 +1477,7 @@ def correspondence(ck, spec, results):
                               {'smiles': smi, 'history': ops}, observed, 'values of never-cached copies', 'uncached evaluation on a fresh copy')
         if not failing2:
             ck.unchecked('correspondence memo model', log2[-1500:])
-    return good1 and good2 and good3
+    return good1 and good2 and good3 and good4
 
 
 def runtime_audit(ck, spec, results, inst):
